@@ -367,7 +367,11 @@ class SimpleValue(FieldDefinition):
             except jinja2.exceptions.UndefinedError as e:
                 raise DataGenNameError(e.message, self.filename, self.line_num) from e
             except Exception as e:
-                raise DataGenValueError(str(e), self.filename, self.line_num) from e
+                message = str(e)
+                if not message.strip():
+                    # exceptions such as a bare `assert` have no text of their own
+                    message = f"{type(e).__name__} raised while evaluating {self.definition}"
+                raise DataGenValueError(message, self.filename, self.line_num) from e
         else:
             val = self.definition
         context.unique_context_identifier = old_context_identifier
